@@ -336,6 +336,9 @@ struct lp_msg *verif_wrap_msg_queue_extract(void)
 	M.n_extract++;
 	pend_del(m);
 	struct tctx *c = tc();
+	if(g_verbose)
+		fprintf(stderr, "DBG sps=%llu t%d r%d extract t=%g lp=%llu flags=%u in_round=%d\n", (unsigned long long)G.sps, vt_self->id, vt_self->rank,
+		    m->dest_t, (unsigned long long)m->dest, m->raw_flags, c->in_round);
 	if(c->in_round && m->dest_t < c->round_min)
 		c->round_min = m->dest_t;
 	if(m->dest_t < c->last_gvt)
@@ -385,6 +388,9 @@ void verif_wrap_termination_on_gvt(simtime_t g)
 			    M.round_gvt[k]);
 		}
 	}
+	if(g_verbose)
+		fprintf(stderr, "DBG sps=%llu t%d r%d REPORT g=%g in_round=%d round_min=%g\n", (unsigned long long)G.sps, vt_self->id, vt_self->rank, g,
+		    c->in_round, c->round_min);
 	if(c->in_round && c->round_min < g)
 		sim_violation("C04", "gvt-above-own-extraction",
 		    "thread %d is told GVT=%g although it extracted a message with t=%g after it had joined this reduction", vt_self->id, g,
@@ -407,15 +413,21 @@ void engine_on_sp(struct vthread *t, int kind, const volatile void *addr)
 	if(P.engine >= 1 && P.engine <= 3)
 		return;
 	{
-		static const char *f_thread_phase, *f_node_phase;
+		/* __func__ strings are per rank copy of the core */
+		static const char *f_thread_phase_r[VERIF_NRANKS], *f_node_phase_r[VERIF_NRANKS];
 		const char *fn = t->sp_func;
-		if(fn && fn != f_thread_phase && fn != f_node_phase) {
-			if(!f_thread_phase && !strcmp(fn, "gvt_thread_phase_run"))
-				f_thread_phase = fn;
-			else if(!f_node_phase && !strcmp(fn, "gvt_node_phase_run"))
-				f_node_phase = fn;
+		int rk_ = t->rank < VERIF_NRANKS ? t->rank : 0;
+		if(fn && fn != f_thread_phase_r[rk_] && fn != f_node_phase_r[rk_]) {
+			if(!f_thread_phase_r[rk_] && !strcmp(fn, "gvt_thread_phase_run"))
+				f_thread_phase_r[rk_] = fn;
+			else if(!f_node_phase_r[rk_] && !strcmp(fn, "gvt_node_phase_run"))
+				f_node_phase_r[rk_] = fn;
 		}
+		const char *f_thread_phase = f_thread_phase_r[rk_], *f_node_phase = f_node_phase_r[rk_];
 		struct tctx *c = &TC[t->id];
+		if(g_verbose && fn && (fn == f_thread_phase || fn == f_node_phase))
+			fprintf(stderr, "DBG sps=%llu t%d r%d %s:%d kind=%d val=%u\n", (unsigned long long)G.sps, t->id, t->rank, fn, t->sp_line, kind,
+			    *(volatile unsigned *)addr);
 		if(fn && fn == f_thread_phase && !c->in_round) {
 			c->in_round = true; /* from here on everything this thread extracts is covered by its accumulator */
 			c->round_min = __builtin_inf();
